@@ -853,6 +853,13 @@ func ToEntry(n Node) (e *Entry) {
 				// The key of the map used is a synthesised value which is formed by
 				// concatenating the name of this node and the included submodule,
 				// separated by a ":".
+				if a.Module == nil || a.Module.BelongsTo == nil {
+					// The include was never satisfied (Process
+					// reported that), or names something that
+					// is not a submodule.
+					e.addError(fmt.Errorf("%s: no such submodule: %s", Source(a), a.Name))
+					continue
+				}
 				srcToIncluded := a.Module.Name + ":" + n.NName()
 				includedToSrc := n.NName() + ":" + a.Module.Name
 
